@@ -2,6 +2,7 @@
 from __future__ import annotations
 
 import ast
+import itertools
 from typing import Dict, List, Optional, Set, Tuple
 
 from ..db import ProgramDB, FuncInfo, ClassInfo, AnalysisError, unparse, own_nodes, dotted
@@ -710,11 +711,37 @@ def rule_reg_snapshot(db: ProgramDB) -> List[Instance]:
     y = db.fn("cache_data:yield_class_values_from_cache")
     cfg = CFG(y)
 
+    # a read written inside a generator expression, a lambda or a lazy wrapper (map, filter, chain) happens where the result is consumed
+    def deferred(root):
+        res = set()
+        for g in ast.walk(root):
+            lazy = isinstance(g, (ast.GeneratorExp, ast.Lambda)) or \
+                (isinstance(g, ast.Call) and (dotted(g.func) or "").split(".")[-1] in ("map", "filter", "chain", "from_iterable", "starmap", "imap"))
+            if lazy:
+                inner = ast.walk(g) if not isinstance(g, ast.GeneratorExp) else \
+                    itertools.chain(ast.walk(g.elt), *[ast.walk(x) for gen in g.generators[1:] for x in [gen.iter] + gen.ifs], *[ast.walk(x) for x in g.generators[0].ifs])
+                for c in inner:
+                    if isinstance(c, ast.Call) and call_attr(c) == "retrieve" and c is not g:
+                        res.add(id(c))
+        return res
+    lazy_names = set()
+    for a in own_nodes(y.node):
+        if isinstance(a, ast.Assign) and len(a.targets) == 1 and isinstance(a.targets[0], ast.Name) and deferred(a.value):
+            lazy_names.add(a.targets[0].id)
+
     def reads_store(nd):
         if nd.ast is None:
             return False
         scan = nd.ast.iter if nd.kind == "for" else nd.ast
-        return any(isinstance(c, ast.Call) and call_attr(c) == "retrieve" for c in ast.walk(scan))
+        d = deferred(scan)
+        if any(isinstance(c, ast.Call) and call_attr(c) == "retrieve" and id(c) not in d for c in ast.walk(scan)):
+            return True
+        consumed = scan if nd.kind == "for" else None
+        if consumed is None and nd.has_yield:
+            consumed = scan
+        if consumed is not None and (d or any(isinstance(x, ast.Name) and x.id in lazy_names for x in ast.walk(consumed))):
+            return True
+        return False
     ys = [nd for nd in cfg.nodes if nd.has_yield]
     rs = [nd for nd in cfg.nodes if reads_store(nd)]
     if not ys or not rs:
